@@ -153,7 +153,7 @@ class Mode:
         if self.wanted is not None and name != self.wanted and not self.symbolic:
             return None
         return self._rec(name, "discharged" if cond else "failed", backend, 0.0, detail=detail,
-                         cex={"env": dict(self.env)} if (not cond and not self.symbolic) else None)
+                         cex={"env": {k: str(v) for k, v in self.env.items()}} if not cond else None)
 
     def undecided(self, name, why):
         return self._rec(name, "undecided", "-", 0.0, detail=why)
@@ -168,9 +168,10 @@ class Mode:
 
             if isinstance(e, Undecided):
                 raise
-            return self._rec(name, "failed", "run", 0.0,
+            return self._rec(name, "failed", "run", 0.0, cex={"env": {k: str(v) for k, v in self.env.items()}},
                              detail="raised %s instead of %s: %s" % (type(e).__name__, excs, e))
-        return self._rec(name, "failed", "run", 0.0, detail="did not raise " + detail)
+        return self._rec(name, "failed", "run", 0.0, detail="did not raise " + detail,
+                         cex={"env": {k: str(v) for k, v in self.env.items()}})
 
 
 def _num(x):
